@@ -310,6 +310,91 @@ fn gen_params(rng: &mut Rng, subscriber: bool, thorough: bool) -> Params {
     }
 }
 
+/// A stream that forwards a follow-up entry into a queue-backed sink from inside next(): that
+/// append runs on a background writer thread, which is a thread like any other.
+struct Forwarding {
+    inner: vcommon::stream::ScriptedStream,
+    target: Arc<std::sync::OnceLock<BackgroundQueue<IdEntry>>>,
+}
+impl metrique_writer::EntryIoStream for Forwarding {
+    fn next(&mut self, entry: &impl metrique_writer::Entry) -> Result<(), metrique_writer::IoStreamError> {
+        if let EntryKind::Id(id) = vcommon::stream::classify(entry) {
+            if id_producer(id) == 0 {
+                self.target.get().expect("target set before the first append").append(IdEntry::new(1, id_seq(id)));
+            }
+        }
+        self.inner.next(entry)
+    }
+    fn flush(&mut self) -> std::io::Result<()> {
+        self.inner.flush()
+    }
+}
+
+/// Pipelines: (a) queue A's stream forwards one follow-up entry per entry into queue B;
+/// (b) a queue whose stream feeds follow-up entries back into the same queue through a clone of
+/// its own handle. Every follow-up entry is an appended entry like any other: exactly once, in order.
+fn pipeline_scenarios(args: &Args, rep: &Report) {
+    let mut rng = Rng::derive(args.seed, 0x50_0001);
+    for round in 0..args.by_tier(6, 40) {
+        if rep.violation_count() != 0 {
+            return;
+        }
+        rep.eval();
+        let n = 1 + rng.below(if round % 3 == 0 { 3000 } else { 40 }) as u32;
+        let feedback = round % 2 == 1;
+        let sh_a = StreamShared::new(args.seed ^ round);
+        let sh_b = StreamShared::new(args.seed ^ round ^ 0xb);
+        let target = Arc::new(std::sync::OnceLock::new());
+        let (qa, ha) = BackgroundQueueBuilder::new().capacity(8192).flush_interval(Duration::from_millis(1)).build::<IdEntry>(Forwarding { inner: sh_a.stream(), target: target.clone() });
+        let qb = if feedback {
+            let _ = target.set(qa.clone());
+            None
+        } else {
+            let (qb, hb) = BackgroundQueueBuilder::new().capacity(8192).flush_interval(Duration::from_millis(1)).build::<IdEntry>(sh_b.stream());
+            let _ = target.set(qb.clone());
+            Some((qb, hb))
+        };
+        for s in 0..n {
+            qa.append(IdEntry::new(0, s));
+            if s % 512 == 511 {
+                block_on(qa.flush_async());
+            }
+        }
+        // everything A was given has gone through its stream (and has been forwarded) ...
+        block_on(qa.flush_async());
+        // ... and a second barrier covers what the stream fed back / forwarded meanwhile
+        block_on(qa.flush_async());
+        if let Some((qb, _)) = &qb {
+            block_on(qb.flush_async());
+        }
+        let follow_log = if feedback { sh_a.log() } else { sh_b.log() };
+        let first: Vec<u64> = sh_a.log().iter().filter_map(|e| e.id()).filter(|id| id_producer(*id) == 0).collect();
+        let follow: Vec<u64> = follow_log.iter().filter_map(|e| e.id()).filter(|id| id_producer(*id) == 1).collect();
+        let want_first: Vec<u64> = (0..n).map(|s| make_id(0, s)).collect();
+        let want_follow: Vec<u64> = (0..n).map(|s| make_id(1, s)).collect();
+        // break the reference cycle queue -> stream -> queue before shutting down
+        drop(qa);
+        if let Some((qb, hb)) = qb {
+            ha.shut_down();
+            drop(qb);
+            hb.shut_down();
+        } else {
+            // the queue's own stream holds a handle on it: it never becomes unreferenced; shut it down
+            ha.shut_down();
+        }
+        if first != want_first || follow != want_follow {
+            rep.violation(
+                "entry-lost",
+                json!({"what": if feedback { "a stream fed one follow-up entry per entry back into its own queue (an append made on the writer thread through a clone of the handle)" } else { "queue A's stream forwarded one follow-up entry per entry into queue B (an append made on A's writer thread)" },
+                       "entries": n, "first_stage_delivered": first.len(), "follow_up_entries_delivered": follow.len(), "follow_up_head": &follow[..follow.len().min(8)]}),
+            );
+            return;
+        }
+        rep.count("pipeline_scenarios", 1);
+        rep.count("entries_appended_on_a_writer_thread_and_delivered", n as u64);
+    }
+}
+
 fn native_main(args: &Args, rep: &Report) {
     // subscriber=1: an ordinary subscriber; subscriber=2: a subscriber whose filter lets nothing
     // through (a subscriber IS installed, so errors go to tracing - and are filtered there - never in band)
@@ -461,6 +546,7 @@ fn native_main(args: &Args, rep: &Report) {
         rep.count("stale_iteration_shutdown_scenarios", 1);
         drop(append);
     }
+    pipeline_scenarios(args, rep);
     // A subscriber installed AFTER a queue was built: from then on a validation failure must be
     // reported through tracing, not in band. (The global subscriber can be set once per process,
     // so this runs once, at the very end, when no other history is in flight.)
